@@ -2,6 +2,8 @@
 import itertools
 import copy
 import multiprocessing as mp
+import re
+import hashlib
 
 from harness import common
 
@@ -11,10 +13,21 @@ ASSUMPTIONS = [
     'port names are drawn from a set in which names are string prefixes of one another (a, ab, abc, a_b, b, x)',
     'include rule sets contain no rule that is an ancestor of another rule of the same set (the property\'s side condition)',
     'independence is probed by mutating every reachable port object on one side after the expose and re-reading the other side; '
-    'in-place mutation of a shared mutable attribute VALUE (e.g. a dict used as default) is not probed',
+    'in-place mutation of a shared mutable attribute VALUE of a NAMESPACE (e.g. a dict used as its default: copy.copy and '
+    'setattr(self, attr, getattr(source, attr)) share it by reference) is not probed and not modelled (values are atoms)',
+    'full model: the source and the destination share no port object before the first expose (C15_full_seq_invariant proves '
+    'that exposes keep it so); every namespace has distinct keys (a dict)',
+    'full stream: identity is compared with `is` against the objects numbered before the first call; property values and leaf '
+    'attributes are compared by `repr` (interned to atoms)',
 ]
 TRUSTED = ['selection model lean/PlumpyModel/Expose/Model.lean (hand-written mirror of PortNamespace.absorb / strip_namespace), '
-           'compared with the real absorb on every case', 'copy.copy / copy.deepcopy (Python runtime)']
+           'compared with the real absorb on every case',
+           'full model lean/PlumpyModel/Expose/Full.lean (hand-written mirror of ProcessSpec._expose_ports, '
+           'PortNamespace.create_port_namespace / absorb / __setitem__ / valid_type.setter on objects with identities), compared with '
+           'the real expose_inputs / expose_outputs on every case of the full stream (pmodel exposefull)',
+           'the enumeration of mutable PortNamespace properties and the defaults of PortNamespace(name) are constants of the model '
+           '(Full.defaultProps, dynIdx, vtIdx), checked against the real class in every case',
+           'copy.copy / copy.deepcopy (Python runtime)']
 
 NAMES = ['a', 'ab', 'abc', 'b', 'a_b', 'x']
 LEAF_ATTRS = [dict(), dict(valid_type=int), dict(required=False), dict(default=3), dict(help='h'), dict(valid_type=str, required=False),
@@ -313,6 +326,278 @@ def run_impl(case):
     return obs, fails
 
 
+
+# ---------------------------------------------------------------------------------------------------------------------------
+# full stream: the whole `_expose_ports` call on port OBJECTS (model lean/PlumpyModel/Expose/Full.lean, `pmodel exposefull`)
+# ---------------------------------------------------------------------------------------------------------------------------
+PROP_ORDER = ['default', 'dynamic', 'help', 'populate_defaults', 'required', 'valid_type', 'validator']   # = the model's enumeration
+BASE_ATOMS = {'None': 0, 'True': 1, 'False': 2, '()': 3}            # Full.noneAtom / trueAtom / defaultProps
+DEFAULT_PROPS = [3, 2, 0, 1, 1, 0, 0]                                # Full.defaultProps
+FULL_NAMESPACES = [None, None, '', 'tgt', 'tgt', 'tgt.sub', 'a', 'ab.x', 'pre2', 'pre2.deep', 'pre1', 'pre2.q', 'pre2.q.z', 'new.',
+                   'a..b', 'abc']
+VT = {'int': int, 'str': str}
+
+
+def gen_ns_props(rng, nm):
+    props = {}
+    if rng.random() < 0.5:
+        props['dynamic'] = rng.random() < 0.5
+    if rng.random() < 0.5:
+        props['required'] = rng.random() < 0.5
+    if rng.random() < 0.3:
+        props['help'] = 'ns-' + nm
+    if rng.random() < 0.3:
+        props['populate_defaults'] = False
+    if rng.random() < 0.25:
+        props['valid_type'] = rng.choice(['int', 'str'])       # the setter forces dynamic=True …
+        if rng.random() < 0.4:
+            props['_dynamic_after'] = False                      # … unless `dynamic` is assigned afterwards
+    if rng.random() < 0.2:
+        props['default'] = {'d': nm}
+    return props
+
+
+def gen_full_tree(rng, depth, names, top=True):
+    n = rng.randint(1, 4) if top else rng.choice([0, 1, 1, 2, 2, 3])
+    out = []
+    for nm in rng.sample(names, min(n, len(names))):
+        if depth > 0 and rng.random() < 0.45:
+            out.append((nm, gen_ns_props(rng, nm), gen_full_tree(rng, depth - 1, names, top=False)))
+        else:
+            out.append((nm, rng.randrange(len(LEAF_ATTRS)), None))
+    return out
+
+
+def gen_rules(rng, tree):
+    allp = ['.'.join(p) for p in all_paths(tree)] + ['zz', 'a.zz', 'ab.x.y', 'abc', 'a']
+    mode = rng.choice(['none', 'none', 'ex', 'ex', 'inc', 'inc', 'inc', 'exempty', 'incempty', 'both', 'exempty+inc'])
+    ex = inc = None
+    if mode in ('ex', 'both'):
+        ex = rng.sample(allp, rng.randint(1, min(3, len(allp))))
+    if mode in ('inc', 'both', 'exempty+inc'):
+        for _ in range(20):
+            inc = rng.sample(allp, rng.randint(1, min(3, len(allp))))
+            if no_ancestor(inc):
+                break
+        else:
+            inc = inc[:1]
+    if mode in ('exempty', 'exempty+inc'):
+        ex = []
+    if mode == 'incempty':
+        inc = []
+    return ex, inc
+
+
+def gen_full_opts(rng):
+    r = rng.random()
+    if r < 0.45:
+        return None
+    if r < 0.5:
+        return {}
+    vals = {'dynamic': [True, False], 'required': [False, True], 'help': ['override'], 'populate_defaults': [False],
+            'default': ['UNSPECIFIED', {'y': 2}], 'valid_type': ['int', None], 'validator': [None]}
+    opts = {k: rng.choice(vals[k]) for k in rng.sample(sorted(vals), rng.randint(1, 3))}
+    if rng.random() < 0.15:
+        opts['no_such_property'] = 1
+    return opts
+
+
+def gen_full_case(rng):
+    """destination with ports of its own (also under the names the sources use, and under the target namespaces), one or two
+    sources, one to three expose calls in a row (the later calls see the ports of the earlier ones)"""
+    kind = rng.choice(['inputs', 'outputs'])
+    dst = gen_full_tree(rng, 2, NAMES + ['pre1', 'pre2', 'tgt'])
+    if rng.random() < 0.6:
+        dst = [e for e in dst if e[0] not in ('pre1', 'pre2')] + [('pre1', 1, None), ('pre2', {}, [('q', 0, None)])]
+    srcs = [dict(tree=gen_full_tree(rng, 3, NAMES), top=gen_ns_props(rng, 'top')) for _ in range(rng.choice([1, 1, 2]))]
+    calls = []
+    for _ in range(rng.choice([1, 1, 2, 2, 3])):
+        si = rng.randrange(len(srcs))
+        ex, inc = gen_rules(rng, srcs[si]['tree'])
+        ns = calls[-1]['ns'] if calls and rng.random() < 0.4 else rng.choice(FULL_NAMESPACES)   # again into the same namespace
+        calls.append(dict(src=si, ns=ns, ex=ex, inc=inc, opts=gen_full_opts(rng)))
+    return dict(full=True, kind=kind, dst=dst, dst_top=gen_ns_props(rng, 'dst') if rng.random() < 0.3 else {}, srcs=srcs, calls=calls)
+
+
+def build_full(ns, tree):
+    from plumpy.ports import PortNamespace, InputPort
+    for nm, attr, sub in tree:
+        if sub is None:
+            ns[nm] = InputPort(nm, **copy.deepcopy(LEAF_ATTRS[attr]))
+        else:
+            ns[nm] = PortNamespace(nm)
+            apply_props(ns[nm], attr)
+            build_full(ns[nm], sub)
+
+
+def apply_props(ns, props):
+    for k, v in props.items():
+        if k == 'valid_type':
+            ns.valid_type = VT[v]
+        elif not k.startswith('_'):
+            setattr(ns, k, copy.deepcopy(v))
+    if '_dynamic_after' in props:
+        ns.dynamic = props['_dynamic_after']
+
+
+class Atoms:
+    def __init__(self):
+        self.t = dict(BASE_ATOMS)
+
+    def __call__(self, value):
+        return self.t.setdefault(repr(value), len(self.t))
+
+
+def real_prop_names():
+    from plumpy.ports import PortNamespace
+    from plumpy.utils import is_mutable_property
+    return [a for a in dir(PortNamespace('x')) if is_mutable_property(PortNamespace, a)]
+
+
+def ns_props(ns, atoms, names):
+    return ','.join(str(atoms(getattr(ns, k))) for k in names)
+
+
+def leaf_attr(port, atoms):
+    return atoms((type(port).__name__, repr(port.valid_type), port.required, repr(port.default) if port.has_default() else '<no default>',
+                  port.help, repr(port.validator)))
+
+
+def objects(ns):
+    """the objects of a namespace in pre-order, the namespace first"""
+    return [ns] + list(all_ports(ns))
+
+
+def enc_full(ns, atoms, names):
+    from plumpy.ports import PortNamespace
+
+    def go(n):
+        toks = [str(len(n))]
+        for k, v in n.items():
+            if isinstance(v, PortNamespace):
+                toks += ['N', k, ns_props(v, atoms, names)] + go(v)
+            else:
+                toks += ['L', k, str(leaf_attr(v, atoms))]
+        return toks
+    return ' '.join([ns_props(ns, atoms, names)] + go(ns))
+
+
+def dump_full(ns, atoms, names, cls):
+    from plumpy.ports import PortNamespace
+    out = [f'@:N:{ns_props(ns, atoms, names)}:{cls(ns)}']
+
+    def go(n, pre):
+        for k, v in n.items():
+            if isinstance(v, PortNamespace):
+                out.append(f'{pre}{k}:N:{ns_props(v, atoms, names)}:{cls(v)}')
+                go(v, f'{pre}{k}.')
+            else:
+                out.append(f'{pre}{k}:L:{leaf_attr(v, atoms)}:{cls(v)}')
+    go(ns, '')
+    return ' '.join(out)
+
+
+ERR_KINDS = [('mutually exclusive', 'exclusive'), ('is not a supported PortNamespace property', 'unknownopt'),
+             ('already contains a Port', 'occupied'), ('cannot be an empty string', 'emptyname')]
+
+
+def run_full_impl(case):
+    """-> (model input line, observation line of the real code, monitor failures)"""
+    common.ensure_repo_on_path()
+    import plumpy
+    from plumpy.ports import UNSPECIFIED
+    kind = case['kind']
+    fails = []
+    names = real_prop_names()
+    atoms = Atoms()
+
+    def mk(tree, top):
+        class P(plumpy.Process):
+            @classmethod
+            def define(cls, spec):
+                super().define(spec)
+                target = getattr(spec, kind)
+                apply_props(target, top)
+                build_full(target, tree)
+        return P
+
+    Dst = mk(case['dst'], case['dst_top'])
+    Srcs = [mk(s['tree'], s['top']) for s in case['srcs']]
+    dst_ns = getattr(Dst.spec(), kind)
+    src_nss = [getattr(S.spec(), kind) for S in Srcs]
+    d_objs = objects(dst_ns)
+    s_objs = [o for s in src_nss for o in objects(s)]
+    klass = {id(o): f'D{i}' for i, o in enumerate(d_objs)}
+    klass.update({id(o): f'S{i}' for i, o in enumerate(s_objs)})
+    keep = list(d_objs) + list(s_objs)               # keep every classified object alive: `id` stays unambiguous
+    toks = ['DST', enc_full(dst_ns, atoms, names)]
+    for s in src_nss:
+        toks += ['SRC', enc_full(s, atoms, names)]
+    obs = []
+    memory = getattr(Dst.spec(), '_exposed_' + kind)
+    for k, call in enumerate(case['calls'], 1):
+        opts = call['opts']
+        real_opts = None if opts is None else {
+            o: (UNSPECIFIED if v == 'UNSPECIFIED' else VT[v] if (o == 'valid_type' and v is not None) else copy.deepcopy(v))
+            for o, v in opts.items()}
+        if opts is None:
+            otok = '-'
+        elif not opts:
+            otok = '()'
+        else:
+            otok = ','.join(f"{names.index(o) if o in names else 100 + j}:{atoms(real_opts[o])}" for j, o in enumerate(opts))
+        nstok = '-' if call['ns'] is None else '=' + call['ns']
+        toks += ['CALL', str(call['src']), nstok, fmt_rules(call['ex']), fmt_rules(call['inc']), otok]
+        before_leaves = leaf_paths(dst_ns)
+        err = '-'
+        absorbed = None
+        try:
+            getattr(Dst.spec(), 'expose_' + kind)(Srcs[call['src']], namespace=call['ns'], exclude=call['ex'], include=call['inc'],
+                                                  namespace_options=real_opts)
+            absorbed = memory[call['ns']][Srcs[call['src']]]
+        except ValueError as e:
+            err = next((kd for frag, kd in ERR_KINDS if frag in str(e)), 'ValueError:' + str(e)[:40])
+        except Exception as e:  # noqa
+            err = type(e).__name__
+        for o in objects(dst_ns):
+            if id(o) not in klass:
+                klass[id(o)] = f'F{k}'
+                keep.append(o)
+        head = f"names={','.join(absorbed) if absorbed else '-'} err={err}"
+        obs.append(head + ' ' + dump_full(dst_ns, atoms, names, lambda o: klass[id(o)]))
+        # monitors written from the property text (and from C15_full_rejected_adds_no_port): a raising call adds / removes no port
+        if err != '-' and leaf_paths(dst_ns) != before_leaves:
+            fails.append(dict(signature='c15-rejected-call-changed-ports', clause='a rejected expose adds and removes no port',
+                              detail=dict(call=k, error=err)))
+        should_reject = (call['ex'] is not None and call['inc'] is not None) or (opts is not None and 'no_such_property' in opts)
+        if should_reject and err == '-':
+            fails.append(dict(signature='c15-not-rejected', clause='include together with exclude (or an unknown namespace option) is rejected',
+                              detail=dict(call=k)))
+    if names != PROP_ORDER or ns_props(plumpy.ports.PortNamespace('x'), Atoms(), names) != ','.join(map(str, DEFAULT_PROPS)):
+        # the model's property enumeration / defaults are not those of this PortNamespace: shows as a divergence
+        obs.append('property-table-differs ' + json_dumps(names))
+    return ' '.join(toks), ' | '.join(obs), fails
+
+
+def digest_line(x):
+    return hashlib.sha1(x.encode()).hexdigest()[:16]
+
+
+def json_dumps(x):
+    import json
+    return json.dumps(x, sort_keys=True)
+
+
+def full_corpus():
+    t1 = [('a', {}, [('x', 0, None)]), ('ab', {'valid_type': 'int', '_dynamic_after': False}, [('x', 0, None), ('y', 1, None)]), ('abc', 2, None)]
+    d1 = [('pre1', 1, None), ('a', 3, None), ('pre2', {}, [('q', 0, None)]), ('tgt', {'help': 'mine'}, [('abc', 0, None), ('own', 1, None)])]
+    s1 = dict(tree=t1, top={'help': 'top', 'valid_type': 'str'})
+    C = lambda **kw: dict(dict(src=0, ns=None, ex=None, inc=None, opts=None), **kw)   # noqa
+    return [dict(full=True, kind='inputs', dst=d1, dst_top={}, srcs=[s1], calls=[C(ns='tgt'), C(ns='tgt', inc=['ab.x'])]),
+            dict(full=True, kind='inputs', dst=d1, dst_top={}, srcs=[s1], calls=[C(opts={'dynamic': False}), C(ns='pre1')]),
+            dict(full=True, kind='outputs', dst=d1, dst_top={}, srcs=[s1], calls=[C(ns='new.sub', ex=[], inc=['a']), C(ns='n2', opts={'no_such_property': 1, 'help': 'override'})]),
+            dict(full=True, kind='inputs', dst=d1, dst_top={}, srcs=[s1], calls=[C(ns='new.'), C(ns='pre2.q.z'), C(ns='', ex=['a'], inc=['ab'])])]
+
 def model_line(case):
     return f"{fmt_rules(case['ex'])} {fmt_rules(case['inc'])} {enc(case['tree'])}"
 
@@ -346,6 +631,36 @@ def run(ctx):
         il = ' '.join(res[i][0]['paths'])
         if model is not None and model[j] != il:
             divergences.append(dict(case=cases[i], line=lines[j], impl=il, model=model[j]))
+    # full stream: the whole call on port objects, sequences of calls, against `pmodel exposefull`
+    nfull = 2500 if not ctx.thorough else 40000
+    fcases = full_corpus() + [gen_full_case(rng) for _ in range(nfull)]
+    with mp.Pool(ctx.workers) as pool:
+        fres = pool.map(run_full_impl, fcases, chunksize=100)
+    fmodel = ctx.model.run('exposefull', [r[0] for r in fres])
+    fhist = dict(calls=0, errors={}, overwrite_in_place=0, existing_target=0, second_call_sees_first=0)
+    for c, (line, il, ffails) in zip(fcases, fres):
+        for f in ffails:
+            failures.append(dict(f, case=c))
+    for j, (c, (line, il, _ff)) in enumerate(zip(fcases, fres)):
+        if fmodel is not None and fmodel[j] != il:
+            divergences.append(dict(case=c, line=line, impl=il, model=fmodel[j]))
+        parts = il.split(' | ')
+        fhist['calls'] += len(c['calls'])
+        seen_f = False
+        for part in parts:
+            m = re.search(r'err=(\S+)', part)
+            if m and m.group(1) != '-':
+                fhist['errors'][m.group(1)] = fhist['errors'].get(m.group(1), 0) + 1
+        if len(parts) > 1 and ':F1' in parts[-1] and ':F2' in parts[-1]:
+            fhist['second_call_sees_first'] += 1
+        dst_names = {e[0] for e in c['dst']}
+        if any(call['ns'] in (None, '') and dst_names & {e[0] for e in c['srcs'][call['src']]['tree']} for call in c['calls']):
+            fhist['overwrite_in_place'] += 1
+        if any(call['ns'] and call['ns'].split('.')[0] in dst_names for call in c['calls']):
+            fhist['existing_target'] += 1
+        if ':F' in il:
+            distinct.add(digest_line(il))
+    hist['full'] = fhist
     for c, (obs, fails) in zip(cases, res):
         for f in fails:
             f = dict(f)
@@ -364,17 +679,24 @@ def run(ctx):
         if c['opts']:
             hist['options'] += 1
     return dict(
-        evaluations=len(cases), distinct_nontrivial=len(distinct),
+        evaluations=len(cases) + len(fcases), distinct_nontrivial=len(distinct),
         rule='random source trees (depth <= 3) whose names are string prefixes of one another x exclude / include rule sets over '
              'existing and non-existing dotted paths x target namespace x namespace option overrides x inputs/outputs; '
              'non-trivial = a strict, non-empty subset of the source leaves is exposed; distinct = distinct (rules, tree, namespace)',
         samples=[dict(case=cases[i], exposed=res[i][0]) for i in (0, len(cases) // 2, len(cases) - 1)],
-        traces_validated=len(idx) if model is not None else 0, divergences=divergences, failures=failures,
+        traces_validated=(len(idx) + len(fcases)) if model is not None else 0, divergences=divergences, failures=failures,
         histograms=hist, exhaustive=False)
 
 
 def replay(ctx, failure):
     case = failure['case']
+    if case.get('full'):
+        def fixt(t):
+            return [(nm, a, None if sub is None else fixt(sub)) for nm, a, sub in t]
+        case = dict(case, dst=fixt(case['dst']), srcs=[dict(s, tree=fixt(s['tree'])) for s in case['srcs']])
+        line, il, fails = run_full_impl(case)
+        m = ctx.model.run('exposefull', [line])
+        return dict(impl=il, model=m[0] if m else None, line=line, failures=fails)
     def fix(t):
         return [(nm, a, None if sub is None else fix(sub)) for nm, a, sub in t]
     case = dict(case, tree=fix(case['tree']))
